@@ -98,6 +98,15 @@ def m_leakcheck(s, av):
         s.events.append(('assert', 9000, 'leakcheck'))
     return None
 
+@model('vp_phase')
+def m_phase(s, av):
+    # C20 isolation bookkeeping: 1 = building the other Lexicon, 2 = operating on this one (accesses classified), 0 = off
+    ph = s.concretize(av[0], 'phase')
+    if ph == 1: s.extra['iso_lo'] = s.heap
+    if ph == 2: s.extra['iso_hi'] = s.heap
+    s.extra['iso_phase'] = ph
+    return None
+
 @model('vp_symbolic')
 def m_symbolic(s, av): return 1
 
@@ -348,6 +357,7 @@ def m_guard_acq(s, av):
     a = s.concretize(av[0], 'address'); g = s.load(a, 1)
     g = s.concretize(g, 'guard')
     s.events.append(('guard', a))
+    if s.extra.get('iso_phase') == 2: raise Violation('isolation', 'function-local static initialisation guard used while operating on a Lexicon')
     return 0 if g else 1
 @model('__cxa_guard_release')
 def m_guard_rel(s, av):
